@@ -1,21 +1,25 @@
 (* C05 - captured one-line helper functions are inlined faithfully.
    Statements only; proofs in Proofs/CaptureProofs.v and Proofs/CaptureSem.v.
-   [res]/[resolve_called] model _resolve_called_lambdas with fixes F06, F07 (shadowing), FC2 applied. *)
+   [res]/[resolve_called] model _resolve_called_lambdas with fixes F06, F07, FC2, FC4 applied; [helper_capval] is FC5. *)
 From FA.Base Require Import PyAst Value Eval Traverse.
 From FA.Model Require Import Capture.
 From FA.Proofs Require Import Refine CaptureProofs CaptureSem.
 
 (* --- inline_sem (partial) ---
    "Inlining = Python's call semantics": Base/Eval.v evaluates [Call (Lambda ps b) args] by Python's positional
-   binding, call by value; [resolve_called] replaces such calls by the substituted body and must preserve the value.
-   Full statement aimed at:  eval E e = Some v -> resolve_called e = Ok e' -> eval E e' = Some v  for every e whose
-   inlined bodies do not bind a free name of a substituted argument.
-   Proved: for every backend, on the fragment [fragr true] - any nesting of called lambdas (helpers inside helpers'
-   arguments and bodies, inside lambdas of Select/Where/... and inside comprehensions), positional calls of matching
-   arity - with the hygiene hypothesis in its syntactic form: inside the body of an inlined lambda no lambda /
-   comprehension binder stays ([fragr false] has no binder constructor).  Missing: bodies with staying binders
-   (needs the weakening lemma of the semantics plus "no argument name is bound inside the body"; without that
-   hypothesis the statement is false, see [inline_capture_open]); keyword calls (left as calls, FC2). *)
+   binding, call by value; [resolve_called] replaces such calls by the substituted body - or, when an argument
+   name is bound again inside the body (FC4), leaves the call - and must preserve the value.
+   Full statement aimed at:  eval E e = Some v -> resolve_called e = Ok e' -> eval E e' = Some v  for every e.
+   Proved: for every backend, on the fragment [fragr true]: any nesting of called lambdas (helpers inside helpers'
+   arguments and bodies, inside lambdas of Select/Where/... and inside comprehensions), positional calls of
+   matching arity.  Binders that stay (method-call lambdas, comprehension targets) may occur at top level, under
+   other staying binders, and - new with FC4/this revision - inside the body of a lambda called with constant
+   arguments ([FCallLamC], e.g. a helper with an inner Select called as h(1, 2)); inside the body of a lambda
+   inlined with non-constant arguments no binder stays, and there the bail-out test is proved never to fire
+   ([fragr_false_no_binders]).  Still missing: bodies with staying binders called with non-constant arguments,
+   where FC4's test decides between inlining and leaving the call; both branches need the coincidence lemma of
+   the semantics (eval depends only on the names that occur).  That case is covered by the correspondence and the
+   value oracle, and by the Examples [inline_capture_bails] / [inline_shadow_inlined] below. *)
 Theorem inline_sem_partial :
   forall (B : backend) (ops : list string) e e' E v,
     fragr true e -> resolve_called e = Ok e' ->
@@ -60,7 +64,8 @@ Example inline_inner_shadow :
   = Ok (Lambda ["e"] (Call (Attr (Attr (Name "e") "jets") "Select") [Lambda ["a"] (Attr (Name "a") "pt")] [] [])).
 Proof. vm_compute. reflexivity. Qed.
 
-(* nested helpers: the inner helper of a helper body stays a call by name; helper calls in arguments are all inlined *)
+(* a helper lambda handed in un-rewritten keeps its inner call by name (pre-FC5 snapshot shape; with FC5 the snapshot is
+   built by [helper_capval], see helper_of_helper_inlined); helper calls in arguments are all inlined *)
 Example inline_nested :
   parse_callable (glob [("h2", CFun (Some (Lambda ["a"; "b"] (BinOp BSub (Name "a") (Name "b")))));
                         ("h4", CFun (Some (Lambda ["a"] (BinOp BAdd (Call (Name "h2") [Name "a"; Const (CInt 1)] [] []) (Const (CInt 1))))))])
@@ -90,12 +95,52 @@ Proof.
   split; [repeat (constructor; try reflexivity)|]. split; [vm_compute; reflexivity|]. split; vm_compute; reflexivity.
 Qed.
 
-(* OPEN FINDING (no small fix): the hygiene hypothesis is necessary.  def h(a): return a.jets.Select(lambda j: j.pt + a.pt),
-   passed lambda  lambda j: h(j) : the argument's name is captured by the binder inside the helper body. *)
-Example inline_capture_open :
+(* FC4: def h(a): return a.jets.Select(lambda j: j.pt + a.pt), passed lambda  lambda j: h(j) : the argument's name is
+   bound again inside the body, so the call is left (Python's call semantics), and the value is kept *)
+Example inline_capture_bails :
   let h := Lambda ["a"] (Call (Attr (Attr (Name "a") "jets") "Select")
                               [Lambda ["j"] (BinOp BAdd (Attr (Name "j") "pt") (Attr (Name "a") "pt"))] [] []) in
   let q := Call h [Name "j"] [] [] in
   let E := [("j", VDict [VStr "pt"; VStr "jets"] [VInt 10; VList [VDict [VStr "pt"] [VInt 1]]])] in
-  eval B0 ["Select"] E q = Some (VList [VInt 11]) /\ eval B0 ["Select"] E (res [] q) = Some (VList [VInt 2]).
+  res [] q = q /\
+  eval B0 ["Select"] E q = Some (VList [VInt 11]) /\ eval B0 ["Select"] E (res [] q) = Some (VList [VInt 11]).
+Proof. split; [vm_compute; reflexivity | split; vm_compute; reflexivity]. Qed.
+
+(* the same helper called with another name is inlined, and an inner called lambda re-using the name does not block it *)
+Example inline_shadow_inlined :
+  let h := Lambda ["a"] (Call (Attr (Attr (Name "a") "jets") "Select")
+                              [Lambda ["j"] (BinOp BAdd (Attr (Name "j") "pt") (Attr (Name "a") "pt"))] [] []) in
+  res [] (Call h [Name "e"] [] []) =
+    Call (Attr (Attr (Name "e") "jets") "Select") [Lambda ["j"] (BinOp BAdd (Attr (Name "j") "pt") (Attr (Name "e") "pt"))] [] [] /\
+  res [] (Call (Lambda ["x"] (BinOp BAdd (Call (Lambda ["x"] (BinOp BAdd (Name "x") (Const (CInt 2)))) [Name "x"] [] []) (Const (CInt 1))))
+               [Name "x"] [] [])
+  = BinOp BAdd (BinOp BAdd (Name "x") (Const (CInt 2))) (Const (CInt 1)).
 Proof. split; vm_compute; reflexivity. Qed.
+
+(* a helper with an inner Select-lambda called with constant arguments is inside the theorem's fragment *)
+Example inline_sem_const_args :
+  let h := Lambda ["k"] (Call (Attr (Name "s") "Select") [Lambda ["j"] (BinOp BAdd (Name "j") (Name "k"))] [] []) in
+  let q := Call h (map Const [CInt 5]) [] [] in
+  fragr true q /\
+  eval B0 ["Select"] [("s", VList [VInt 1; VInt 2])] q = Some (VList [VInt 6; VInt 7]) /\
+  eval B0 ["Select"] [("s", VList [VInt 1; VInt 2])] (res [] q) = Some (VList [VInt 6; VInt 7]).
+Proof.
+  split; [apply (FCallLamC true ["k"] _ [CInt 5]); [reflexivity | repeat constructor] | split; vm_compute; reflexivity].
+Qed.
+
+(* FC5: the helper's own free variables are frozen with the helper's own snapshot; a helper whose rewriting raises
+   is left by name *)
+Example helper_frozen_with_own_closure :
+  let hce := glob [("e", CVal (CInt 100))] in
+  parse_callable (glob [("h", helper_capval hce (Lambda ["a"] (BinOp BAdd (Name "a") (Name "e"))))])
+    (Lambda ["e"] (Call (Name "h") [Attr (Name "e") "a"] [] []))
+  = Ok (Lambda ["e"] (BinOp BAdd (Attr (Name "e") "a") (Const (CInt 100)))).
+Proof. vm_compute. reflexivity. Qed.
+
+Example helper_of_helper_inlined :
+  let h2 := helper_capval (glob []) (Lambda ["a"; "b"] (BinOp BSub (Name "a") (Name "b"))) in
+  let h4 := helper_capval (glob [("h2", h2); ("G", CVal (CInt 7))])
+              (Lambda ["a"] (BinOp BAdd (Call (Name "h2") [Name "a"; Const (CInt 1)] [] []) (Name "G"))) in
+  parse_callable (glob [("h4", h4)]) (Lambda ["e"] (Call (Name "h4") [Attr (Name "e") "z"] [] []))
+  = Ok (Lambda ["e"] (BinOp BAdd (BinOp BSub (Attr (Name "e") "z") (Const (CInt 1))) (Const (CInt 7)))).
+Proof. vm_compute. reflexivity. Qed.
